@@ -234,6 +234,8 @@ def execute(sc):
     res.log = log
     log.blind_sizes = True      # NaN cells are part of the workload: see EventLog
     log.emit("scenario", prop="C09", nprod=len(sc["producers"]), ncons=len(sc["consumers"]))
+    if any(isinstance(v, str) for p in sc["producers"] for v in p["values"]):
+        log.digest_cut = log.seq      # NaN / infinite cells: see EventLog.digest_cut
     fs = SimFS(log, res, files={}, dirs=[WORK])
     snaps = {}        # result name -> snapshot taken when it was produced
     holders = {}      # result name -> command object
